@@ -379,10 +379,11 @@ pub fn run_one(fc: &FilterCfg, forms: &[TagExpr], feats: &[gherkin::Feature]) ->
 // a method drops the options, `filter_run` falls back to parsing the process
 // arguments (and `clap` would exit the process on ours).
 
-pub const ORDER_METHODS: [&str; 14] = [
+/// (`with_default_cli` is the one method that must *drop* the filter: the defaults replace it)
+pub const ORDER_METHODS: [&str; 15] = [
     "before", "after", "which_scenario", "steps", "given", "max_concurrent_scenarios", "retries",
     "fail_fast", "retry_after", "retry_filter", "retry_options", "repeat_skipped", "repeat_failed",
-    "fail_on_skipped",
+    "fail_on_skipped", "with_default_cli",
 ];
 const ORDER_FILTERS: [(Option<usize>, Option<usize>); 3] = [(None, Some(0)), (Some(0), None), (None, Some(4))];
 
@@ -404,7 +405,8 @@ pub fn order_case(m: usize, fi: usize) -> Option<String> {
     let fc = FilterCfg { re, tags, closure: None, via_clap: false, exit: false };
     let feat = features().swap_remove(200);
     let expected: Vec<String> = {
-        let e = expected(&fc, &forms, &feat);
+        let none = FilterCfg { re: None, tags: None, closure: None, via_clap: false, exit: false };
+        let e = expected(if ORDER_METHODS[m] == "with_default_cli" { &none } else { &fc }, &forms, &feat);
         e.scenarios.iter().chain(e.rules.iter().flat_map(|r| &r.scenarios)).map(|s| s.name.clone()).collect()
     };
     let all: usize = feat.scenarios.len() + feat.rules.iter().map(|r| r.scenarios.len()).sum::<usize>();
@@ -437,6 +439,7 @@ pub fn order_case(m: usize, fi: usize) -> Option<String> {
         "retry_options" => finish(c.retry_options(|_, _, _, _| None), plain),
         "repeat_skipped" => finish(c.repeat_skipped(), |w| started_names(w.inner_writer())),
         "repeat_failed" => finish(c.repeat_failed(), |w| started_names(w.inner_writer())),
+        "with_default_cli" => finish(c.with_default_cli(), plain),
         _ => finish(c.fail_on_skipped(), |w| started_names(w.inner_writer())),
     };
     // Repeat re-emits nothing that is a scenario Started, so the lists compare directly
@@ -565,7 +568,7 @@ pub fn run(a: &ShardArgs) -> serde_json::Value {
         "property": "C15", "tier": a.tier,
         "total_configs": fcs.len() * groups.len(), "configs_done": evaluations, "configs_skipped_budget": skipped,
         "evaluations": evaluations, "distinct_nontrivial": nontrivial,
-        "rule": format!("{} filter configurations ({} tag formulas of depth <= 2 (thorough: 3) over {{a,b}} directly and through clap, 4 name regexes, 4 closures, precedence combinations, each through run / filter_run and through run_and_exit / filter_run_and_exit) x {} feature groups; plus 14 builder methods applied after with_cli(filter) x 3 filters, each in a child process with a clean argv ({} features: tags on feature x rule x scenarios); non-trivial = the filter keeps some but not all scenarios", fcs.len(), forms.len(), groups.len(), feats.len()),
+        "rule": format!("{} filter configurations ({} tag formulas of depth <= 2 (thorough: 3) over {{a,b}} directly and through clap, 4 name regexes, 4 closures, precedence combinations, each through run / filter_run and through run_and_exit / filter_run_and_exit) x {} feature groups; plus 15 builder methods applied after with_cli(filter) x 3 filters (with_default_cli must drop the filter, the others keep it), each in a child process with a clean argv ({} features: tags on feature x rule x scenarios); non-trivial = the filter keeps some but not all scenarios", fcs.len(), forms.len(), groups.len(), feats.len()),
         "exhaustive": skipped == 0,
         "violations": violations, "samples": samples,
     })
